@@ -141,6 +141,9 @@ where
     F: Fn(&mut Chooser) + Sync,
 {
     assert!(cfg.max_dev <= MAX_DEV, "deviation bound exceeds MAX_DEV");
+    // experiments only (sizing the tiers): NQV_BUDGET_S overrides the time cap
+    let over = std::env::var("NQV_BUDGET_S").ok().and_then(|s| s.parse::<u64>().ok()).map(Duration::from_secs);
+    let cfg = &ExploreCfg { max_dev: cfg.max_dev, threads: cfg.threads, budget: over.unwrap_or(cfg.budget) };
     let start = Instant::now();
     let mut stats = ExploreStats::default();
     let mut level: Vec<Dev> = vec![Dev::default()];
